@@ -307,7 +307,12 @@ theorem le_removeInsignificantWhitespace (f : Forest) (node : Nat) :
   unfold removeInsignificantWhitespace
   cases f.get? node with
   | none => exact Le.refl f
-  | some t => exact le_foldl_remove (fun n : Nat => n) _ f
+  | some t =>
+    simp only
+    have h0 : Le f ({ f with consolidation := false } : Forest) := ⟨Nat.le_refl _, fun _ h => Or.inl h⟩
+    have h1 := le_foldl_remove (fun n : Nat => n)
+      ((descendantsNormal t).filter f.isInsignificantWhitespace) ({ f with consolidation := false } : Forest)
+    exact ⟨(h0.trans h1).next, (h0.trans h1).old⟩
 
 theorem le_replace (f : Forest) (a b : Nat) : Le f (f.replace a b).1 := by
   unfold replace
